@@ -5,14 +5,15 @@ import PsModel.Spec.C04
 Line-protocol front end of the C04 model.
 
     C04 (<legacy|new> (cfg …) (live0 …) (step …))
-    C04 (held <legacy|new> ((k v) …) ((entity sval sval ctx) …))     -- kwargs of runs delayed by state_hold
+    C04 (held <legacy|new> ((k v) …) ((entity sval sval ctx) …) plain)   -- kwargs of runs delayed by state_hold; plain = 1:
+                                                                      -- also a plain trigger firing on the same events
     C04 (kwnone <legacy|new> (q …) (ctx …))                          -- a decorator with kwargs=None (finding C04-F5)
     cfg  := (func expr (name …) (name …) watch ((k v) …))      -- expr names, any names
     expr := none | E ;  watch := none | (name …) ;  name := (entity part …)
     E    := (eq n lit) | (ne n lit) | (eqn n n) | (isnone n) | (truthy n) | (intgt n k) | (intnz n) | (and E E) | (or E E)
           | (not E) | (anyl E …)
     live0 := ((entity sval) …) ;  sval := none | (state ((k v) …))
-    step := (op entity sval ctx) | (deq i)
+    step := (op entity sval ctx) | (deq i) | (unload) | (load)     -- unload / load: all trigger functions go away / come back
 
 The theorems hold for every expression function; here it is instantiated with an evaluator of the harness' small
 expression grammar (the harness renders the same tree to Python source).
@@ -143,10 +144,36 @@ def cfg? : Sexp → Option STCfg
     pure ⟨expr, exprNames, anyNames, watch, kwargs, func⟩
   | _ => none
 
-def step? : Sexp → Option Step
-  | .list [.atom "op", .atom e, v, c] => do pure (.op ⟨e, ← sval? v, ← c.nat?⟩)
-  | .list [.atom "deq", i] => i.nat?.map Step.deq
+/-- a driver step: a model step, or a life boundary -/
+inductive DStep where
+  | s (st : Step)
+  | unload
+  | load
+
+def step? : Sexp → Option DStep
+  | .list [.atom "op", .atom e, v, c] => do pure (.s (.op ⟨e, ← sval? v, ← c.nat?⟩))
+  | .list [.atom "deq", i] => i.nat?.map (fun j => .s (Step.deq j))
+  | .list [.atom "unload"] => some .unload
+  | .list [.atom "load"] => some .load
   | _ => none
+
+/-- the model over several lives: `exec` within a life, `relife` at every boundary -/
+def execLives (h : Handler) (cfgs : List STCfg) (s : Sys) : List DStep → Sys
+  | [] => s
+  | .s st :: r => execLives h cfgs (step h cfgs s st) r
+  | .unload :: r => execLives h cfgs (relife s) r
+  | .load :: r => execLives h cfgs (relife s) r
+
+/-- the spec over several lives: while nobody is subscribed the snapshot moves on and nothing runs; `f` is the spec
+function of one life (`Spec.log`, `Spec.stEvals c`, `evalCtxs c`) -/
+def specLives {α : Type} (f : Store → List Op → List α) : Store → Bool → List Op → List DStep → List α
+  | st, alive, acc, [] => if alive then f st acc.reverse else []
+  | st, alive, acc, .s (.op o) :: r => specLives f st alive (o :: acc) r
+  | st, alive, acc, .s (.deq _) :: r => specLives f st alive acc r
+  | st, alive, acc, .unload :: r =>
+    (if alive then f st acc.reverse else []) ++ specLives f (acc.reverse.foldl (fun t o => t.put o.e o.new) st) false [] r
+  | st, alive, acc, .load :: r =>
+    (if alive then f st acc.reverse else []) ++ specLives f (acc.reverse.foldl (fun t o => t.put o.e o.new) st) true [] r
 
 def live? (x : Sexp) : Option Store :=
   Sexp.listOf? (fun p => match p with
@@ -182,21 +209,22 @@ def diag (i : Nat) (c : STCfg) (modelEvals specEvals : List Env) (ctxs : List Na
     (if c.watch.isSome && !(c.exprNames.all (fun n => c.ident.contains n)) then [sxl [sxn i, sxn 0, sx "watch-subset"]]
      else [])
 
-def run (legacy : Bool) (cfgs : List STCfg) (live : Store) (steps : List Step) : String :=
+def run (legacy : Bool) (cfgs : List STCfg) (live : Store) (steps : List DStep) : String :=
   let h : Handler := if legacy then Legacy.handle else New.handle
-  let s := exec h cfgs ⟨⟨live, []⟩, fun _ => ⟨[], []⟩, []⟩ steps
-  let ops := opsOf steps
+  let s := execLives h cfgs ⟨⟨live, []⟩, fun _ => ⟨[], []⟩, []⟩ steps
   let idx := List.range cfgs.length
   let fs := funcs cfgs
   let mRuns := fs.map (fun f => sxl (sxn f :: (funcRuns cfgs f s.log).map sxRun))
   let mEvals := idx.map (fun i => sxn (s.ts i).evals.length)
   let pend := idx.map (fun i => sxn (s.ts i).q.length)
-  let sRuns := fs.map (fun f => sxl (sxn f :: (Spec.funcRuns cfgs f live ops).map sxRun))
+  let sLog := specLives (Spec.log cfgs) live true [] steps
+  let sRuns := fs.map (fun f => sxl (sxn f :: ((sLog.filter (ofFunc cfgs f)).map (·.2)).map sxRun))
   let sEvals := idx.map (fun i => match cfgs[i]? with
-    | some c => sxn (Spec.stEvals c live ops).length
+    | some c => sxn (specLives (Spec.stEvals c) live true [] steps).length
     | none => sxn 0)
   let dg := idx.flatMap (fun i => match cfgs[i]? with
-    | some c => diag i c (s.ts i).evals (Spec.stEvals c live ops) (evalCtxs c live ops)
+    | some c => diag i c (s.ts i).evals (specLives (Spec.stEvals c) live true [] steps)
+        (specLives (evalCtxs c) live true [] steps)
     | none => [])
   let model := sxl [sx "runs", sxl mRuns, sx "evals", sxl mEvals, sx "pending", sxl pend]
   let spec := sxl [sx "runs", sxl sRuns, sx "evals", sxl sEvals]
@@ -208,15 +236,19 @@ def ev? : Sexp → Option Ev
   | _ => none
 
 /-- `held`: the keyword arguments of runs delayed by `state_hold` -/
-def runHeld (legacy : Bool) (kw : List (String × String)) (evs : List Ev) : String :=
+def runHeld (legacy : Bool) (kw : List (String × String)) (evs : List Ev) (plain : Bool) : String :=
   let c : STCfg := ⟨none, [], [], none, kw, 0⟩
+  let cp : STCfg := ⟨none, [], [], none, [], 0⟩       -- the plain trigger next to it: no kwargs
   let m := evs.map (fun ev => sxRun (if legacy then Legacy.heldRun c ev else New.heldRun c ev))
   let sp := evs.map (fun ev => sxRun (mkRun c ev))
-  s!"ok (model {(sxl (sx "held" :: m)).render}) (spec {(sxl (sx "held" :: sp)).render}) (diag ())"
+  -- every subscriber's message carries its own copy of the event's arguments (`enqueue`: one `Msg` per queue), so the
+  -- plain trigger's run is `mkRun` of ITS decorator, whatever the held decorator merged into its own copy
+  let mp := if plain then evs.map (fun ev => sxRun (mkRun cp ev)) else []
+  s!"ok (model {(sxl [sx "held", sxl m, sxl mp]).render}) (spec {(sxl [sx "held", sxl sp, sxl mp]).render}) (diag ())"
 
 /-- `kwnone`: a decorator with `kwargs=None`; qs = qualifies-flags of the delivered watched changes, ctxs their ids -/
 def runKwNone (legacy : Bool) (qs : List Bool) (ctxs : List Nat) : String :=
-  let mr := if legacy then Legacy.kwNoneRuns qs else New.kwNoneRuns qs
+  let mr := if legacy then Legacy.kwNoneRuns qs ctxs else New.kwNoneRuns qs ctxs
   let me := if legacy then Legacy.kwNoneEvals qs else New.kwNoneEvals qs
   let sr := (qs.zip ctxs).filterMap (fun p => if p.1 then some p.2 else none)
   let shw (l : List Nat) := "(" ++ " ".intercalate (l.map toString) ++ ")"
@@ -231,13 +263,13 @@ def handle (x : Sexp) : String :=
       else if sub == "new" then runKwNone false qs cs
       else "err bad-subsystem"
     | _, _ => "err parse"
-  | .list [.atom "held", .atom sub, kw, evs] =>
-    match kvs? kw, Sexp.listOf? ev? evs with
-    | some kw, some evs =>
-      if sub == "legacy" then runHeld true kw evs
-      else if sub == "new" then runHeld false kw evs
+  | .list [.atom "held", .atom sub, kw, evs, pl] =>
+    match kvs? kw, Sexp.listOf? ev? evs, pl.bool? with
+    | some kw, some evs, some pl =>
+      if sub == "legacy" then runHeld true kw evs pl
+      else if sub == "new" then runHeld false kw evs pl
       else "err bad-subsystem"
-    | _, _ => "err parse"
+    | _, _, _ => "err parse"
   | .list [.atom sub, cf, lv, st] =>
     match Sexp.listOf? cfg? cf, live? lv, Sexp.listOf? step? st with
     | some cfgs, some live, some steps =>
